@@ -24,7 +24,7 @@ type c17 struct{}
 
 func init() {
 	register(c17{})
-	expectedProbes["C17"] = []string{"mix:distinct-roots", "mix:own-cache", "mix:shared-hcache", "mix:shared-libcache", "mix:shared-readonly-doc", "mix:first-use", "mix:shared-root-context", "lock-contended", "context-switches>10",
+	expectedProbes["C17"] = []string{"mix:distinct-roots", "mix:own-cache", "mix:shared-hcache", "mix:shared-libcache", "mix:shared-readonly-doc", "mix:first-use", "mix:shared-root-context", "mix:shared-root-and-cache", "lock-contended", "context-switches>10",
 		"policy:random", "policy:pct", "history-checked-linearizable", "schema-id-registered-in-shared-cache", "tasks>=4", "ref-to-built-in-meta-schema", "per-task-documents-at-the-same-urls"}
 }
 
@@ -33,7 +33,7 @@ func (c17) Race() bool { return true }
 func (c17) Rule() string {
 	return "2-6 tasks (real goroutines running real library code, serialised by the futex scheduler in a -race build) with 1-4 operations each; mixes: ExpandSpec/Resolve* on distinct roots without cache; " +
 		"single-element expanders each with its own cache; the same with ONE shared caller cache or ONE shared instance of the package's own cache while expanding elements of the same documents " +
-		"(some of them published schemas carrying their own URL as id); json.Marshal and JSON-pointer look-ups on one shared decoded document; first use of the package in a fresh process. Schedules: seeded random walk " +
+		"(some of them published schemas carrying their own URL as id); single-element expanders against ONE shared decoded root, each with its own cache or all with ONE shared cache; json.Marshal and JSON-pointer look-ups on one shared decoded document; first use of the package in a fresh process. Schedules: seeded random walk " +
 		"with varying stickiness or PCT priorities with 1-3 change points; loader requests and cache calls are scheduling points. Oracle: no race report / fatal error (worker exit 66 or death, journalled scenario " +
 		"replayed), no deadlock, every result equal to the same operation run alone beforehand, shared-cache history linearizable against a sequential map (porcupine). Non-trivial: ≥2 tasks were interleaved " +
 		"(≥1 context switch); distinct by (mix, policy, tasks, contended?, entry points)."
@@ -49,7 +49,7 @@ func (c17) Gen(r *sim.RNG, tier string, idx int) *Scenario {
 	if cfg.NDocs > 3 {
 		cfg.NDocs = 3
 	}
-	sc.Mix = []string{"distinct-roots", "own-cache", "shared-hcache", "shared-libcache", "shared-libcache", "shared-readonly-doc", "first-use", "shared-root-context"}[r.Intn(8)]
+	sc.Mix = []string{"distinct-roots", "own-cache", "shared-hcache", "shared-libcache", "shared-libcache", "shared-readonly-doc", "first-use", "shared-root-context", "shared-root-and-cache"}[r.Intn(9)]
 	if strings.HasPrefix(sc.Mix, "shared-") && sc.Mix != "shared-readonly-doc" {
 		cfg.WholeDoc = true
 		cfg.SelfIDs = r.Bool(0.6)
@@ -115,7 +115,7 @@ func (c17) Gen(r *sim.RNG, tier string, idx int) *Scenario {
 					op = c[r.Intn(len(c))]
 					op.Cache = "shared"
 				}
-			case "shared-root-context":
+			case "shared-root-context", "shared-root-and-cache":
 				// ONE root document, decoded once, is the read-only context of every task's calls
 				// (what go-openapi/validate does); some tasks encode it meanwhile
 				var c []Op
@@ -138,6 +138,10 @@ func (c17) Gen(r *sim.RNG, tier string, idx int) *Scenario {
 					op = c[r.Intn(len(c))]
 					op.Root = []string{"shared-typed", "shared-typed", "shared-generic"}[r.Intn(3)]
 					op.Cache = []string{"nil", "fresh", "lib"}[r.Intn(3)]
+					if sc.Mix == "shared-root-and-cache" {
+						// ... and ONE cache as well: every call registers the same root in it
+						op.Root, op.Cache = "shared-typed", "shared"
+					}
 				}
 			case "shared-readonly-doc":
 				if r.Bool(0.5) {
@@ -321,7 +325,7 @@ func (c17) Run(sc *Scenario) *Verdict {
 	}
 	var sharedDoc *spec.Swagger
 	var sharedGeneric interface{}
-	if sc.Mix == "shared-readonly-doc" || sc.Mix == "shared-root-context" {
+	if sc.Mix == "shared-readonly-doc" || sc.Mix == "shared-root-context" || sc.Mix == "shared-root-and-cache" {
 		// (not in the first-use mix: nothing of the package may run before the tasks there)
 		sharedDoc, _ = DecodeRoot(w)
 		sharedGeneric = model.CloneJSON(w.Docs[w.Root])
@@ -431,7 +435,7 @@ func (c17) Run(sc *Scenario) *Verdict {
 		switch sc.Mix {
 		case "shared-hcache":
 			return NewHCache(), nil
-		case "shared-libcache":
+		case "shared-libcache", "shared-root-and-cache":
 			rc := &recCache{inner: LibCache()}
 			return rc, rc
 		}
